@@ -441,8 +441,17 @@ func c11Export(e *message.Engine, cuts []message.BackupChannelCut) ([]byte, mess
 	return data, stats, err
 }
 
-func c11Import(e *message.Engine, mode string, data []byte) (message.BackupSnapshotStats, error) {
+var errC11Panic = errors.New("panic")
+
+// c11Import: a panic on the legacy []byte path is reported as its own result class (`panics=`),
+// a panic on the reader path propagates to the framework (PANIC = violation).
+func c11Import(e *message.Engine, mode string, data []byte) (st message.BackupSnapshotStats, err error) {
 	if mode == "bytes" {
+		defer func() {
+			if p := recover(); p != nil {
+				err = errC11Panic
+			}
+		}()
 		return e.ImportBackupSnapshot(context.Background(), data)
 	}
 	return e.ImportBackupSnapshotReader(context.Background(), bytes.NewReader(data), int64(len(data)))
@@ -541,6 +550,10 @@ func (r *c11Runner) Step(op string) string {
 		}
 		r.freshDst()
 		_, err := c11Import(r.dst, f[1], b)
+		if err == errC11Panic {
+			r.freshDst()
+			return "panic"
+		}
 		if err != nil {
 			return fmt.Sprintf("rejected left=%d", c11Count(r.dst))
 		}
@@ -556,6 +569,11 @@ func (r *c11Runner) Step(op string) string {
 		flips, frej, truncs, trej, partial := 0, 0, 0, 0, 0
 		try := func(b []byte) bool {
 			_, err := c11Import(r.dst, f[1], b)
+			if err == errC11Panic {
+				partial += 1000000
+				r.freshDst()
+				return true
+			}
 			if err == nil {
 				r.freshDst()
 				return false
@@ -593,13 +611,18 @@ func (r *c11Runner) Step(op string) string {
 			return "no-stream"
 		}
 		r.freshDst()
-		n, rej, acc, partial, badinv := 0, 0, 0, 0, 0
+		n, rej, acc, partial, panics := 0, 0, 0, 0, 0
 		for i := 0; i < len(r.stream)-4; i += int(stride) {
 			b := append([]byte(nil), r.stream...)
 			b[i] ^= byte(1 + (i*7)%255)
 			c11FixCRC(b)
 			n++
 			_, err := c11Import(r.dst, f[1], b)
+			if err == errC11Panic {
+				panics++
+				r.freshDst()
+				continue
+			}
 			if err == nil {
 				acc++
 				r.freshDst()
@@ -611,8 +634,7 @@ func (r *c11Runner) Step(op string) string {
 				r.freshDst()
 			}
 		}
-		_ = badinv
-		return fmt.Sprintf("n=%d rejected=%d accepted=%d partial=%d", n, rej, acc, partial)
+		return fmt.Sprintf("n=%d rejected=%d accepted=%d partial=%d panics=%d", n, rej, acc, partial, panics)
 	}
 	if strings.HasPrefix(f[0], "x") {
 		return r.metaStep(f)
